@@ -254,6 +254,12 @@ def run_case(acc, judge, prop, source, spec, op_factory=None, case_no=0):
                          payload)
             else:
                 acc.held("history:earlier-result", None)
+            # the caller empties the container it was given; the next execution on the same model is judged afresh
+            r2 = op.execute(model).get_result()
+            if isinstance(r2, list):
+                r2.clear()
+                judge(acc, "history:caller-emptied-result", spec, model, idx, sem_t, sem_c, tags,
+                      "history:caller-emptied-result", dict(payload, history="caller emptied the returned list"), op)
         except Exception as e:  # noqa: BLE001
             acc.fail("history:earlier-result", "no-exception", prop, [], f"raises:{type(e).__name__}", str(e)[:200], payload)
     # history: the SAME model object is edited in place through public attributes/methods and analysed again
@@ -291,4 +297,16 @@ def run_case(acc, judge, prop, source, spec, op_factory=None, case_no=0):
         cls2 = "history:edit-in-place" + ("|" + "+".join(tags2) if tags2 else "")
         payload2 = {"source": "history:edit-in-place", "spec": es if len(S.feature_names(es)) <= 80 else None,
                     "before_edit": payload["spec"]}
+        if hasattr(op, "get_configurations_number") and not es.get("ctcs"):
+            # second public entry point asked right after the edit, before any new execute()
+            try:
+                direct = op.get_configurations_number()
+                want = len(sem_t2) if sem_t2 is not None else refsem.count(es)
+                if direct != want:
+                    acc.fail(cls2, "exact-without-constraints", "FMEstimatedConfigurationsNumber.get_configurations_number",
+                             tags2, "stale-direct-call", f"get_configurations_number()={direct} after an in-place edit, exact={want}",
+                             payload2)
+            except Exception as e:  # noqa: BLE001
+                acc.fail(cls2, "no-exception", "FMEstimatedConfigurationsNumber.get_configurations_number", tags2,
+                         f"raises:{type(e).__name__}", str(e)[:200], payload2)
         judge(acc, "history:edit-in-place", es, model, idx2, sem_t2, sem_c2, tags2, cls2, payload2, op)
